@@ -19,12 +19,24 @@ mod search;
 mod testing_utils;
 mod uci;
 
+#[cfg(rce_verif)]
+#[allow(clippy::all, clippy::pedantic, clippy::nursery, dead_code, unused_imports)]
+mod verif_driver {
+    include!(env!("RCE_VERIF_DRIVER"));
+}
+
 use std::env;
 
 fn main() {
     let args: Vec<String> = env::args().collect();
     if args.len() > 1 && args[1] == "bench" {
         bench::bench();
+        return;
+    }
+
+    #[cfg(rce_verif)]
+    if args.len() > 1 && args[1] == "verif" {
+        verif_driver::main(&args[2..]);
         return;
     }
 
